@@ -25,6 +25,7 @@ for d in sorted(glob.glob(os.path.join(ROOT, "seeded", "C*-m*"))):
     first = [l.strip() for l in out.splitlines() if l.strip().startswith("VIOLATION")][:1]
     res.append({"seed": name, "property": meta["property"], "exit": r.get(meta["property"]), "first": first})
     print(name, meta["property"], r, first[:1], flush=True)
+    json.dump(res, open(os.path.join(ROOT, "seeded", "RESULTS.json"), "w"), indent=1)
 known = json.load(open(os.path.join(ROOT, "known_findings.json")))["findings"]
 fixed = {}
 for k in known:
@@ -38,4 +39,5 @@ if not only:
         r, out = run(p, sorted(set(props)), rev=True)
         res.append({"seed": "revert-" + c, "property": ",".join(sorted(set(props))), "exit": r, "first": [l.strip() for l in out.splitlines() if l.strip().startswith("VIOLATION")][:1]})
         print("revert", c, r, flush=True)
+        json.dump(res, open(os.path.join(ROOT, "seeded", "RESULTS.json"), "w"), indent=1)
 json.dump(res, open(os.path.join(ROOT, "seeded", "RESULTS.json"), "w"), indent=1)
